@@ -89,6 +89,10 @@ func c03Scenario(r *vk.RNG) *pipeScenario {
 		}
 	}
 	ps.FinalGrow = 1
+	if r.Chance(1, 6) {
+		// names the configuration accepts and that need quoting in SQL text: the unwind addresses the same table as the inserts
+		ps.Table = vk.Pick(r, []string{"Transfers_A", "erc20-t_a", "order"})
+	}
 	return ps
 }
 
